@@ -129,7 +129,8 @@ pub struct Endpoint {
 /// move every event already delivered to the application side of `dc` into `log` (never blocks)
 fn drain_channel(dc: &Arc<DataChannel>, log: &Arc<Mutex<Vec<(u16, DataChannelEvent)>>>) {
     use futures::FutureExt;
-    while let Some(Some(ev)) = dc.recv().now_or_never() {
+    // `unconstrained`: tokio's cooperative budget would otherwise make `recv` report Pending after 128 events
+    while let Some(Some(ev)) = tokio::task::unconstrained(dc.recv()).now_or_never() {
         log.lock().push((dc.id, ev));
     }
 }
